@@ -1,14 +1,14 @@
 import AlphaG.Lemmas.CrcOrbitDef
 /-
-Segments 12..15 of the orbit of POLY under the zero-input map: each is one kernel
-evaluation of 32800 register steps (`decide +kernel`; no `native_decide`). The junction states
+Segments 12..15 of the orbit of 1 under the zero-input map: each is one kernel
+evaluation of 32800 register steps (`decide +kernel`). The junction states
 are literals checked by the kernel (generated once with a script; a wrong literal fails).
 -/
 namespace AlphaG.Crc
 
-theorem orbit_seg12 : walk 3143184419 32800 = some 2834966120 := by decide +kernel
-theorem orbit_seg13 : walk 2834966120 32800 = some 4019189949 := by decide +kernel
-theorem orbit_seg14 : walk 4019189949 32800 = some 3644625895 := by decide +kernel
-theorem orbit_seg15 : walk 3644625895 32800 = some 2995896996 := by decide +kernel
+theorem orbit_seg12 : walk 1935546039 32800 = some 1410873889 := by decide +kernel
+theorem orbit_seg13 : walk 1410873889 32800 = some 3673393035 := by decide +kernel
+theorem orbit_seg14 : walk 3673393035 32800 = some 3080016191 := by decide +kernel
+theorem orbit_seg15 : walk 3080016191 32800 = some 1624241081 := by decide +kernel
 
 end AlphaG.Crc
